@@ -10,19 +10,19 @@ CHECKS = {
 
  "C02": dict(cat="exploration", ref="DESIGN.md section 3 C02",
    technique="deterministic simulation: seeded worlds with near-miss password families at login start/finish/both, cross-fed finalizations; Model A (symbolic) as oracle",
-   text="Seeded worlds per suite: one registration, one honest login, then a near-miss family of wrong passwords (bit flips, prefixes/extensions, case, whitespace, NUL twins, empty, length-prefix shapes, 65535-byte last-byte twins) applied at start only / finish only / both; the client must return exactly InvalidLoginError and every finalization that exists (plus zero/random) must fail on that server state.",
-   note="password pairs are sampled, each pair is deterministic; error kind demanded only within the 65535-byte limit"),
+   text="Seeded worlds per suite: one registration, one honest login, then a near-miss family of wrong passwords (bit flips, prefixes/extensions, case, whitespace, NUL twins, empty, length-prefix shapes, 65535-byte last-byte twins, digests of the password) applied at start only / finish only / both, one attempt in eight with an unencodable 65536-byte client context on top, one world in seven under a KSF instance that ignores its input; the client must return exactly InvalidLoginError and every finalization that exists (plus zero/random) must fail on that server state.",
+   note="password pairs are sampled, each pair is deterministic; error kind demanded for passwords and identities within the 65535-byte limit and for every context"),
  "C03": dict(cat="fault_enumeration", ref="DESIGN.md section 3 C03",
    technique="deterministic simulation with enumerated message corruption: every single-bit/single-byte substitution of the genuine finalization, XOR-cancelling pairs, transpositions, constants, random and cross-session finalizations delivered to every pending server state; Model A as oracle",
    text="For every pending server state of a seeded world (two sessions of one user, another user, wrong-password, fake record, abandoned) the complete family of 8*Nh bit flips and 255*Nh byte substitutions of the genuine finalization is delivered, plus structured forgeries and every other session's finalization; only the matching one may succeed and must return the client's key.",
    note="the substitution family is exhaustive per state; states/worlds are seeded samples"),
  "C04": dict(cat="fault_enumeration", ref="DESIGN.md section 3 C04",
    technique="deterministic simulation with enumerated message corruption of the credential response at every offset, field splices from other sessions/users/servers/fake records, re-randomised fields, reflection; Model A as oracle",
-   text="For sampled honest logins every offset of the credential response is substituted (quick: 8 bit flips + 1 multi-bit value; thorough: all 255 values), every field and field pair is spliced from five kinds of donor responses, fields are re-randomised/zeroed/rotated, XOR-cancelling pairs and transpositions are applied, the request's own blinded element is reflected; the client must reject all of them and accept the genuine response delivered last.",
-   note="offset x value exhaustive only in the thorough tier; logins sampled; aliases (none after the C10 fixes) would be skipped and counted"),
+   text="For sampled honest logins every offset of the credential response is substituted (quick: 8 bit flips + 1 multi-bit value; thorough: all 255 values), all 255 other values of the first and last byte of both group-element fields, every field and field pair is spliced from six kinds of donor responses, fields are re-randomised/zeroed/rotated, XOR-cancelling pairs and transpositions are applied, the request's own blinded element is reflected, and one substitution per offset is made in the response's bincode and JSON encodings and delivered through that codec; the client must reject all of them and accept the genuine response delivered last.",
+   note="offset x value exhaustive only in the thorough tier; logins sampled; a corrupted delivery is identified by its bytes, so an accepted alias encoding is a violation (found and fixed F4 on the serde path, see known_findings.json)"),
  "C05": dict(cat="exploration", ref="DESIGN.md section 3 C05",
    technique="deterministic simulation: seeded parameter triples (registration / server login / client login) incl. boundary-shifted splits and crafted length-prefix collisions; Model A computes effective identities and decides accept/reject",
-   text="Seeded worlds over identity/context/credential-id triples: boundary-shifted splits of one concatenation, explicit-default spellings, empty vs absent, one-sided identities, 255/256/65535 lengths, twins that would collide under a 1-byte or missing length prefix, and 20 credential-id pairs (prefix, whitespace/NUL/case twins, long tails). Agreement must succeed, any disagreement must fail at the client.",
+   text="Seeded worlds over identity/context/credential-id triples: boundary-shifted splits of one concatenation, explicit-default spellings, empty vs absent, one-sided identities, 255/256/65535 lengths, identities of 65536/70000 bytes against the default and against their 65535-byte prefix, whitespace twins, twins that would collide under a 1-byte or missing length prefix, and 28 credential-id pairs (prefix, whitespace/NUL/case twins, long tails, digests, permuted hash blocks). Agreement must succeed, any disagreement must fail at the client.",
    note="sampled; split positions sampled per world"),
  "C06": dict(cat="exploration", ref="DESIGN.md section 3 C06",
    technique="deterministic simulation with a seam fault: server static key swapped under an unchanged OPRF seed (stolen password file served elsewhere), direct and SimHsm keys; Model A + reported-key postconditions",
@@ -30,28 +30,28 @@ CHECKS = {
    note="sampled worlds; ~900 foreign-key logins per quick run"),
  "C07": dict(cat="exploration", ref="DESIGN.md section 3 C07",
    technique="deterministic simulation of an adversarial network: every routing of requests/responses/finalizations inside a bounded population, executed in seeded random topological orders with shared per-party RNGs; Model A, key agreement/distinctness, schedule-independence (two interleavings compared) and bounded liveness after faults stop",
-   text="Per world 50 server sessions x 204 client finishes x all finalization deliveries (replay from an earlier day, cross-session, cross-user, wrong password, no record, two credential ids); acceptance only along matched conversations, equal keys inside a session, pairwise distinct keys across sessions, identical per-session outputs under a second interleaving, and an honest login per user completes in four steps afterwards. Plus seeded random walks: concurrent users and sessions advance at random, a quarter of the steps deviate in one random aspect (foreign message or state, other password / credential id / identities / context / KSF / setup, crash-reload), deliveries through random codecs.",
+   text="Per world 50 server sessions x 204 client finishes x all finalization deliveries (replay from an earlier day, cross-session, cross-user, wrong password, no record, two credential ids); acceptance only along matched conversations, equal keys inside a session, pairwise distinct keys across sessions, identical per-session outputs under a second interleaving, and an honest login per user completes in four steps afterwards. Plus seeded random walks: concurrent users and sessions advance at random, a quarter of the steps deviate in one random aspect (foreign message or state, other password / credential id / identities / context / KSF / setup, crash-reload), deliveries through random codecs. The adversary also assembles messages from byte ranges of observed ones (finalization pairs, responses cut at field boundaries / inside the MAC / anywhere, requests mixing two clients or followed by foreign bytes).",
    note="routing exhaustive inside the population (quick samples 1/4 of client finishes on P-384/P-521 groups); populations, passwords, tapes, orders seeded"),
  "C08": dict(cat="exploration", ref="DESIGN.md section 3 C08",
    technique="deterministic simulation of histories interleaving fake (no record) and real logins; structural/equality/non-repetition oracles over the recorded history, candidate-key unmasking with harness HKDF, Model A for client/server outcomes",
-   text="Fake responses have the real length and decode; the evaluation element is equal with and without record for equal (setup, credential id, request); no other field ever repeats across the history; the fake response does not unmask under any key visible outside the call; the client reports InvalidLoginError; no finalization completes a fake server state.",
+   text="Fake responses have the real length and decode; the evaluation element is equal with and without record for equal (setup, credential id, request); no other field ever repeats across the history; the fake response does not unmask under any key visible outside the call; the no-record answer draws at least Nh more bytes of tape than a with-record answer; crafted key shares (the password file's client key, the server's key) are answered or refused alike with and without the file; replayed real requests are answered freshly; degenerate 00/FF tape prefixes; the client reports InvalidLoginError; no finalization completes a fake server state.",
    note="unpredictability is tested as non-repetition / tape dependence only"),
  "C10": dict(cat="fault_enumeration", ref="DESIGN.md section 3 C10",
    technique="fault enumeration on stored/wire bytes: truncation/extension at every length, every leading-byte value and substitutions at every offset of every element/scalar field, non-reduced scalars, on the 11 native decoders x 20 suites; oracle decode-Ok implies canonical re-encoding",
-   text="Starting from valid encodings harvested from a seeded simulated run, each decoder is fed the complete families of wrong lengths and field corruptions; whatever decodes must re-encode to the input bytes and have the suite's fixed length; the same for key-exchange public/private key fields decoded through opaque-ke's own serde impls (bincode, JSON).",
-   note="families complete per harvested encoding; encodings are seeded samples; found and fixed F1/F2 (see known_findings.json)"),
+   text="Starting from valid encodings harvested from a seeded simulated run, each decoder is fed the complete families of wrong lengths and field corruptions; whatever decodes must re-encode to the input bytes and have the suite's fixed length; the same for every key, OPRF element and scalar field through bincode and JSON; every valid value stored through bincode/JSON and loaded again is the same value.",
+   note="families complete per harvested encoding; encodings are seeded samples; found and fixed F1/F2, confirms F4 (see known_findings.json)"),
  "C11": dict(cat="fault_enumeration", ref="DESIGN.md section 3 C11",
    technique="fault enumeration: an independently generated (Python big-integer) catalogue of invalid group elements/scalars planted in every element/scalar field of every message/state, decoded natively and through bincode and JSON; oracle decode returns Err",
    text="Identity, off-curve, out-of-range, bad-tag, non-canonical/negative/non-square ristretto, small-order Curve25519 (canonical, +p, top-bit) and zero/out-of-range/unclamped scalars x every field x 3 codecs x 20 suites; every decode must fail.",
    note="catalogue x fields exhaustive; found and fixed F3 (see known_findings.json)"),
  "C16": dict(cat="exploration", ref="DESIGN.md section 3 C16",
    technique="deterministic simulation of multi-user histories (re-registrations on shared tapes, repeated logins, two servers) with a secret-substring monitor over every byte string that entered the network or a store; Model A names the export key each login must return",
-   text="Every successful login returns the registration's export key; export keys of distinct registrations (same tape, one input varied: password, user id incl. long/whitespace twins, server) pairwise differ; no 16-byte window of any export key, session key or password occurs in any message or password file in native, bincode or JSON form.",
+   text="Every successful login returns the registration's export key; export keys of distinct registrations (same tape, one input varied: password, user id incl. long/whitespace twins and permuted 128-byte segments, server; a fifth of the worlds under a KSF instance that ignores its input) pairwise differ; no 16-byte window of any export key, session key or password occurs in any message or password file in native, bincode or JSON form.",
    note="sampled histories; passwords are random >=16 bytes so the substring monitor is meaningful"),
 
  "C12": dict(cat="exploration", ref="DESIGN.md section 3 C12",
    technique="deterministic simulation with fault injection on every byte seam: seeded random and structure-preserving mutated encodings into 11 decoders x 3 codecs, decoded results pushed into the consuming protocol step, foreign well-formed items routed into every step, catalogue values planted in every field, oversize parameters; catch_unwind no-panic monitor + refusal oracle",
-   text="No library call may panic or hang on random bytes, mutated valid encodings (flip, rewrite, truncate, extend, delete, splice, field constants/swaps), planted invalid or extreme-valid group values, items of the wrong kind/session/suite delivered to any step, or parameter lengths 0..131072; lengths above 65535 must be refused by the call that takes them (identities, context) or by the finish step (password), never wrapped or truncated. The stand-alone key-pair API (PublicKey / PrivateKey / KeyPair decoders, direct and external key types) gets wrong-length, random, mutated and catalogue inputs. The no-panic monitor also runs over samples of all other checks' worlds.",
+   text="No library call may panic or hang on random bytes, mutated valid encodings (flip, rewrite, truncate, extend, delete, splice, field constants/swaps), planted invalid or extreme-valid group values, items of the wrong kind/session/suite delivered to any step, or parameter lengths 0..131072; lengths above 65535 must be refused by the call that takes them (identities, context) or by the finish step (password), never wrapped or truncated. The stand-alone key-pair API (PublicKey / PrivateKey / KeyPair decoders, direct and external key types, and the decoder of a server setup whose external key container is 200 bytes long) gets wrong-length, random, mutated and catalogue inputs; Argon2 instances with an explicit output length shorter/equal/longer than Nh run through registration and login. The no-panic monitor also runs over samples of all other checks' worlds.",
    note="sampled; panics inside the harness are harness errors (exit 2); abusive RNGs and allocation failure not injected"),
  "C13": dict(cat="fault_enumeration", ref="DESIGN.md section 3 C13",
    technique="crash-point enumeration in a deterministic simulation: every assignment of {none, native, bincode, JSON} reloads to the five persistence points (1024 schedules), setup reload before the k-th server op, chained permanent reloads; label-derived tapes; oracle = event log equal to the uninterrupted run",
@@ -59,20 +59,20 @@ CHECKS = {
    note="all 1024 schedules on 4 suites (64 sampled on the other 16) in quick, all on all 20 in thorough; base worlds seeded"),
  "C15": dict(cat="fault_enumeration", ref="DESIGN.md section 3 C15",
    technique="deterministic simulation with the Ksf trait as seam: SimKsf call log (count, instance, input), KSF failing at call n, KSF instance pairs at registration/login decided by Model A, same-tape registrations under two instances; real Identity and Argon2 run too",
-   text="Exactly one KSF evaluation per client finish step, of the instance the caller passed (default when absent), on an Nh-byte input equal at registration and login; equal parameters succeed, different ones give InvalidLoginError, explicit default equals absent (SimKsf, Identity, Argon2 default and non-default cost); every password-derived secret differs between two instances on identical tapes; an injected failure at call 1 surfaces as LibraryError(KsfError) without panic and a failure planned for call 2 never fires.",
+   text="Exactly one KSF evaluation per client finish step, of the instance the caller passed (default when absent), on an Nh-byte input equal at registration and login; equal parameters succeed, different ones give InvalidLoginError, explicit default equals absent (SimKsf incl. instances whose output ignores the input, Identity, Argon2 default and non-default cost); every password-derived secret differs between two instances on identical tapes; an injected failure at call 1 surfaces as LibraryError(KsfError) without panic and a failure planned for call 2 never fires.",
    note="fault index enumerated over n in {1,2} per finish step; pairs enumerated; worlds seeded"),
  "C17": dict(cat="exploration", ref="DESIGN.md section 3 C17",
    technique="deterministic simulation over the RNG seam: recorded tapes replayed equal / independent / as prefixes at every draw boundary, single-draw replacement, and a generator whose try_fill_bytes errors; values compared by role",
-   text="Equal tapes give identical logs; on independent tapes every value meant to be random differs and none coincide within a run (incl. a second setup created with the same static key); for every randomised op and draw boundary k the reproduced values grow monotonically from none (k=0) to all (k=m); the hidden fake masking key is shown to be drawn by single-draw replacement; no op may succeed with different output when the generator reports errors; every pair of values of one call that are meant to be independently random is moved separately by some single perturbed draw.",
+   text="Equal tapes give identical logs; on independent tapes every value meant to be random differs and none coincide within a run (incl. a second setup created with the same static key); for every randomised op and draw boundary k the reproduced values grow monotonically from none (k=0) to all (k=m); the hidden fake masking key is shown to be drawn by single-draw replacement, from at least Nh bytes of tape; the world up to each randomised op run twice in a row gives identical results (state kept between calls); no op may succeed with different output when the generator reports errors; every pair of values of one call that are meant to be independently random is moved separately by some single perturbed draw.",
    note="tests tape-dependence and non-repetition, not unpredictability; sampled worlds"),
  "C18": dict(cat="fault_enumeration", ref="DESIGN.md section 3 C18",
    technique="deterministic simulation with the SecretKey trait as seam: SimHsm (raw-scalar and opaque-handle serialization) vs direct key on equal tapes compared event by event, seam call log, and the seam failing at the n-th fallible call for every op and every n",
-   text="Messages, password file, login state and keys are byte-identical with the key held directly or behind the external-key interface (setup compared on seed, fake key and public key), through memory, codecs and permanent reloads; only public_key/diffie_hellman/clone are called while serving; each injected failure returns exactly LibraryError(Custom(HsmErr(n))) (or the serde error carrying it), never Ok and never a panic.",
+   text="Messages, password file, login state and keys are byte-identical with the key held directly or behind the external-key interface (setup compared on seed, fake key and public key), through memory, codecs and permanent reloads; only public_key/diffie_hellman/clone are called while serving; each injected failure — the key's own error type or one of the library's InternalError values — is returned exactly as LibraryError(that error) (or the serde error naming it), never Ok and never a panic.",
    note="n enumerated completely per op; worlds seeded"),
 
  "C09": dict(cat="exploration", ref="DESIGN.md section 3 C09 and Appendix A",
    technique="deterministic simulation with recording tapes, refined step by step against an executable reference model (Model B: independent RFC 9807/9497 transcription pinned by the RFC's own vectors); witnesses from serialized states, hidden choices matched among recorded draws by value",
-   text="Every registration/login message, the password file, export key, session keys, the value handed to the KSF and the pending server state are recomputed by Model B from the inputs and the random choices actually made, for honest worlds over all parameter classes (empty to 65535-byte passwords, identities > 255 bytes, one-sided identities, 65535-byte contexts), real and absent password files, SimKsf/Identity/Argon2, on all 44 suite instantiations; any differing byte is a violation, as is a client that accepts/rejects differently from the specification's client.",
+   text="Every registration/login message, the password file, export key, session keys, the value handed to the KSF and the pending server state are recomputed by Model B from the inputs and the random choices actually made, for honest worlds over all parameter classes (empty to 65535-byte passwords, identities > 255 bytes, one-sided identities, 65535-byte contexts), real and absent password files, SimKsf/Identity/Argon2, on all 44 suite instantiations, and for crafted-but-acceptable server inputs (replaced key shares, blinded elements, nonces, client public keys; Curve25519 small-order components and bit 255); any differing byte is a violation, as is a client that accepts/rejects differently from the specification's client.",
    note="Model B trusts curve crates (arithmetic, NIST hash-to-curve), sha2, argon2; Nseed := Nsk of the KE group; B must reproduce the 9 RFC vectors first (else exit 2)"),
  "C14": dict(cat="exploration", ref="DESIGN.md section 3 C14",
    technique="deterministic simulation comparing related runs: pairs of independent blinding tapes, one input varied at a time (credential id twins, seed, password), evaluations repeated under swapped static keys / without record / through reloads; relational oracle over all pairs + Model B's blind-free formula",
